@@ -70,6 +70,16 @@ int main() {
       if (c % 27 == 0) check(n, es, w, false);
     }
   }
+  { // several non-positive ideal lengths: each one counts as 1 in the layout's distance matrix
+    std::vector<vpsc::Rectangle*> rs; for (unsigned i = 0; i < 4; ++i) rs.push_back(new vpsc::Rectangle(30.0 * i, 30.0 * i + 10, 0, 10));
+    std::vector<Edge> es; es.push_back(Edge(0, 1)); es.push_back(Edge(1, 2)); es.push_back(Edge(2, 3));
+    cola::EdgeLengths len(3); len[0] = -3; len[1] = 0; len[2] = 0;
+    cola::ConstrainedFDLayout alg(rs, es, 20.0, len);
+    std::vector<double> D = alg.readLinearD();
+    if (D[0 * 4 + 1] != 20 || D[1 * 4 + 2] != 20 || D[2 * 4 + 3] != 20 || D[0 * 4 + 3] != 60) {
+      printf("ideal lengths {-3, 0, 0} on a path of 4 nodes, idealLength 20: D[0][1]=%g D[1][2]=%g D[2][3]=%g D[0][3]=%g (expected 20 20 20 60)\n", D[1], D[6], D[11], D[3]); bad++; }
+    alg.freeAssociatedObjects();
+  }
   { // weights of very different magnitudes: a path of tiny positive weights has a tiny positive length in all three routines
     std::vector<Edge> es; es.push_back(Edge(0, 1)); es.push_back(Edge(1, 2));
     std::valarray<double> w(2); w[0] = 4e-17; w[1] = 5e-17;
@@ -127,14 +137,17 @@ def jobs(tier):
                "// data members the two fragments touch, with their real types (cola/libcola/cola.h); the class has many more\n"
                "class ConstrainedFDLayout { public: unsigned n; double** D; unsigned short** G; double minD; double m_idealEdgeLength;\n"
                "  void verif_pair_body(unsigned i, unsigned j); };\n"
-               "static void verif_lengths_body(std::valarray<double>& eLengths, size_t i)\n" + body_continue_to_return(b1) + "\n"
+               "static void verif_lengths_body(std::valarray<double>& eLengths, size_t i)\n{\n" +
+               # closure: scalar locals declared before the loop are carried along (non-const ones uninitialised = arbitrary: state an earlier iteration may have left)
+               "".join("    " + d + "\n" for d in scalar_local_decls(cpl, r'for \(size_t i = 0; i < eLengths\.size\(\); \+\+i\)')) +
+               body_continue_to_return(b1) + "\n}\n"
                "void ConstrainedFDLayout::verif_pair_body(unsigned i, unsigned j)\n" + b2text + "\n}\n"
                'extern "C" void w_cpl_lengths_body(void *e, size_t i) { cola::verif_lengths_body(*(std::valarray<double> *)e, i); }\n'
                'extern "C" void w_cpl_pair_body(void *l, unsigned i, unsigned j) { ((cola::ConstrainedFDLayout *)l)->verif_pair_body(i, j); }\n')
-    js.append(Job("computePathLengths_lengths_body", "U", spec, "h_cpl_lengths", cxx=cpl_cxx, enforce="w_cpl_lengths_body", defines=["JOB_cpl_lengths"],
+    js.append(Job("computePathLengths_lengths_body", "U", spec, "h_cpl_lengths", cxx=cpl_cxx, enforce="w_cpl_lengths_body", defines=["JOB_cpl_lengths"], replay=replay_c17,
                   slices=[cpl, b1], domain="all doubles, one arbitrary index of an array of any length", expect=[r'postcondition', r'assigns'],
                   note="fprintf(stderr, ..) is macro-ed away (diagnostic output dropped)"))
-    js.append(Job("computePathLengths_pair_body", "U", spec, "h_cpl_pair", cxx=cpl_cxx, enforce="w_cpl_pair_body", defines=["JOB_cpl_pair"],
+    js.append(Job("computePathLengths_pair_body", "U", spec, "h_cpl_pair", cxx=cpl_cxx, enforce="w_cpl_pair_body", defines=["JOB_cpl_pair"], replay=replay_c17,
                   slices=[cpl, b2], domain="all doubles that are numbers, one arbitrary pair (i,j) of a matrix with up to 4 rows (row i valid)",
                   expect=[r'postcondition', r'assigns'], flags=["--sat-solver", "cadical"], backend="sat:cadical"))
     js.append(Job("computePathLengths_pair_body_scaling", "D", spec, "h_cpl_pair", cxx="#define double long long\n#define VERIF_INT_MODE\n" + cpl_cxx,
